@@ -64,7 +64,7 @@ def cmd_new(prop, name, rel, expect):
             print("mutant does not compile:\n" + r.stdout); return 1
         r = sh(["go", "vet", "./..."], cwd=d, check=False)
         vetnote = "" if r.returncode == 0 else " (go vet complains)"
-        r = sh(["go", "test", "-count=1", "./..."], cwd=d, check=False)
+        r = sh(["go", "test", "-count=1", "-timeout", "120s", "./..."], cwd=d, check=False)
         if r.returncode != 0:
             print("mutant FAILS the pinned suite (not kept):\n" + r.stdout[-1500:]); return 1
         diff = sh(["git", "-C", d, "diff"]).stdout
